@@ -169,6 +169,11 @@ func init() {
 // different arity), filtered so that no two atoms of one predicate have equal
 // argument hash sequences (that is the known hash-conflation trigger).
 func buildUniverse(r *simrt.Run) ([]Fact, int) {
+	if r.OneIn(3, "u.cluster") {
+		if uni := hashCluster(r); len(uni) >= 3 {
+			return uni, 1
+		}
+	}
 	pool := ConstPool(r, 4+r.Choose(5, "u.poolsize"))
 	type pd struct {
 		name string
@@ -203,6 +208,73 @@ func buildUniverse(r *simrt.Run) ([]Fact, int) {
 		}
 	}
 	return uni, dropped
+}
+
+// hashCluster builds a small universe of atoms of one predicate (and, for the
+// indexed stores, one first argument) whose hash codes are equal or differ by
+// one or two: the stores keep such atoms apart by probing, and removal has to
+// keep every displaced atom reachable. The candidates are numbers, instants
+// and durations with the same 64-bit payload, some with a high byte flipped;
+// which of them really are neighbours is decided by asking Atom.Hash, not by
+// assuming how it is computed.
+func hashCluster(r *simrt.Run) []Fact {
+	base := int64(r.Choose(3, "u.cl.base"))
+	ar := 1 + r.Choose(2, "u.cl.arity")
+	var cands []Fact
+	for k := 0; k < 4; k++ {
+		n := base ^ int64(k)<<56
+		for _, v := range []Val{IntV(n), {K: VTime, N: n}, {K: VDur, N: n}} {
+			f := Fact{Pred: "p"}
+			if ar == 2 {
+				f.Args = append(f.Args, NameV("/a"))
+			}
+			f.Args = append(f.Args, v)
+			cands = append(cands, f)
+		}
+	}
+	hs := make([]uint64, len(cands))
+	for i, f := range cands {
+		hs[i] = ToAtom(f).Hash()
+	}
+	var near []Fact
+	adjacent := false
+	for i := range cands {
+		ok := false
+		for j := range cands {
+			if i == j {
+				continue
+			}
+			d := hs[i] - hs[j]
+			if hs[j] > hs[i] {
+				d = hs[j] - hs[i]
+			}
+			if d <= 2 {
+				ok = true
+				if d == 1 {
+					adjacent = true
+				}
+			}
+		}
+		if ok {
+			near = append(near, cands[i])
+		}
+	}
+	if len(near) < 3 {
+		return nil
+	}
+	idx := shuffleInts(r, len(near), "u.cl.pick")
+	n := 3 + r.Choose(5, "u.cl.n")
+	if n > len(near) {
+		n = len(near)
+	}
+	var uni []Fact
+	for _, i := range idx[:n] {
+		uni = append(uni, near[i])
+	}
+	if adjacent {
+		r.Probe("universe-has-atoms-with-adjacent-hash")
+	}
+	return uni
 }
 
 func runC06(r *simrt.Run, tier Tier) Outcome {
